@@ -26,7 +26,7 @@ def targeted():
                  '(!("" | "a") ~ ANY)*', '(!("a" | "") ~ ANY)* ~ "a"', '(!("é" | "a") ~ ANY)*']:
         out += [g(body, "@"), g(body, "@", '"b" | "ab"', ""), g(body, "@", '"b"', "@"), g(body, "")]
     for x in ['"a"', "b", '("a" | "b")']:
-        for rep in ["{1}", "{2}", "{3}", "{1,}", "{2,}", "{,1}", "{,2}", "{,3}", "{1,2}", "{1,3}", "{2,3}", "{0,1}", "+"]:
+        for rep in ["{1}", "{2}", "{3}", "{1,}", "{2,}", "{,1}", "{,2}", "{,3}", "{1,2}", "{1,3}", "{2,3}", "{0,1}", "+", "{1,1}", "{2,2}", "{3,3}", "{0,2}"]:
             out += [g(f"{x}{rep}"), g(f"{x}{rep} ~ \"b\"", "@"), g(f"{x}{rep} ~ \"a\"", "", '"b"', "", '_{ " " }')]
     for body in ['"a" ~ "b"', '"a" ~ "b" ~ "c"', '^"a" ~ ^"b"', '"a" ~ ^"b" ~ ^"a" ~ "b"', '"a" ~ "" ~ "b"', '("a" ~ "b") | ("a" ~ "c")']:
         out += [g(body, "@"), g(body, "@", '"b"', "", '_{ " " }'), g(body, "$", '"b"', "", '_{ " " }'), g(body, "", '"b"', "", '_{ " " }')]
